@@ -23,7 +23,8 @@ type replay struct {
 }
 
 type H struct {
-	r *vrt.R
+	r          *vrt.R
+	notedPanic map[string]bool
 }
 
 func hx(b []byte) string {
@@ -91,8 +92,14 @@ func (h *H) runCase(g *pktgen.Gen, cs pktgen.Case) {
 	na := pktgen.NotApplicable(c, x)
 	enc1, err, pv := encode(c, x)
 	if pv != nil {
-		r.Class("encode-panic/" + tn)
+		// Encode panicking on a value with a required part missing is outside C04 (the statement is
+		// about values the protocol permits); listed once per type for the report.
+		r.Class("encode-panic(required field absent)/" + tn)
 		r.AddExtra("encode_panics", 1)
+		if !h.notedPanic[tn] {
+			h.notedPanic[tn] = true
+			r.Note(fmt.Sprintf("Encode panics instead of returning an error (not a C04 violation): %s %s: %v", tn, g.Label(cs.Spec), pv))
+		}
 		return
 	}
 	if err != nil {
@@ -216,7 +223,7 @@ func (h *H) onWire(g *pktgen.Gen, cs pktgen.Case, x proto.Packet, enc1 []byte, p
 
 func TestVerif(t *testing.T) {
 	vrt.Run(t, "C04", func(r *vrt.R) {
-		h := &H{r: r}
+		h := &H{r: r, notedPanic: map[string]bool{}}
 		pktgen.Thorough = r.Thorough()
 		var rp replay
 		if r.ReplayInto(&rp) {
